@@ -1,8 +1,12 @@
 /-
-C12 — GAP maintenance polls exactly the own GAP (core: `next_gap_poll` and the sweep it drives).
-The station-level clauses (one poll per token visit, status replies) live with the Station model.
+C12 — GAP maintenance polls exactly the own GAP (core: `next_gap_poll` and the sweep it drives),
+followed by the station-level clauses (one poll per token visit, whole GAP after a claim, the
+gap-wait pause, ready master becomes NS, truthful status replies) as exact step theorems about the
+handlers of `Model/Station.lean`, for every station state and every input.
 -/
 import ProfiVerif.Lemmas.Gap
+import ProfiVerif.Lemmas.StationGap
+import ProfiVerif.Lemmas.StationVisit
 
 namespace PV.C12
 open PV
@@ -202,5 +206,1396 @@ example : sweepFrom 5 4 10 10 5 = [6, 7, 8, 9, 0, 1, 2, 3] := by decide
 example : sweepFrom 2 9 10 10 2 = [3, 4, 5, 6, 7, 8] := by decide
 example : sweepFrom 7 7 10 10 7 = [8, 9, 0, 1, 2, 3, 4, 5, 6] := by decide
 example : InGap 5 4 10 0 := by decide
+
+/-! # Station level
+
+All theorems below are about the handlers of `Model/Station.lean` (tied byte-exactly to
+`src/fdl/active.rs` by the station correspondence) and hold for EVERY context `c` (station state,
+application scripts, receive buffer) and every time `now`.  `c.tx = none` says that nothing was
+handed to the PHY earlier in this poll (true at the start of every poll: `Station.poll` starts with
+`tx := none`). -/
+
+open StationGap
+
+/-! ## 1. One GAP poll per token visit -/
+
+/-- While the synchronisation pause is not over `do_pass_token` does nothing (in particular no GAP
+bookkeeping, no poll). -/
+theorem pass_token_waits (c : Ctx) (now : Int) (g : Bool) (att : Attempt) (hst : c.s.st = .passToken g att)
+    (hw : ¬ SyncOver c.s now) : doPassToken c now = .ok { c with s := stamped c.s now } := by
+  unfold doPassToken
+  rw [hst]
+  have : (waitSyncPause c.s now).2 = true := by simpa [SyncOver] using hw
+  simp [this, sync_stamped]
+
+/-- **`gap_poll_once_per_visit` (exact step)**: `do_pass_token` at the end of a token visit
+(`do_gap = Yes`) advances the GAP state by exactly one `gapAdvance` step and then
+* transmits ONE FDL status request, to the new poll address `a`, and awaits its answer
+  (`AwaitStatusResponse a`) — the token is not passed in this poll; or
+* (GAP state `Waiting`) transmits no request and passes the token on. -/
+theorem gap_poll_once_per_visit (c : Ctx) (now : Int) (att : Attempt)
+    (hst : c.s.st = .passToken true att) (htx : c.tx = none) (hw : SyncOver c.s now) :
+    match gapAdvance (stamped c.s now) with
+    | none => doPassToken c now = .panic "next_gap_poll overflow"
+    | some (.doPoll a) =>
+      a ≠ c.s.p.address →
+        doPassToken c now =
+          .ok { c with tx := some (statusRequestBytes a c.s.p.address),
+                       s := { (markTx { (stamped c.s now) with gap := .doPoll a } now 6) with st := .awaitStatus a } }
+    | some (.waiting r) =>
+      doPassToken c now = passTokenOn { c with s := { (stamped c.s now) with gap := .waiting r } } now att := by
+  have hw' : (waitSyncPause c.s now).2 = false := hw
+  unfold doPassToken
+  rw [hst]
+  simp only [hw', sync_stamped, if_true, Bool.false_eq_true, if_false]
+  cases hga : gapAdvance (stamped c.s now) with
+  | none => simp
+  | some g =>
+    cases g with
+    | doPoll a =>
+      intro hne
+      simp only [upd]
+      rw [transmitGapPoll_poll { c with s := { (stamped c.s now) with gap := .doPoll a } } now a rfl hne htx]
+      simp [tr, toAwaitStatus, markTx, hst]
+    | waiting r =>
+      simp only [upd]
+      rw [transmitGapPoll_waiting { c with s := { (stamped c.s now) with gap := .waiting r } } now r rfl]
+
+/-- Readable corollary: whatever happens in a `do_pass_token` poll with `do_gap = Yes`, the station
+transmits nothing, or one status request (and is then in `AwaitStatusResponse` for exactly the
+polled address, which is the address `gapAdvance` computed), or the token to NS. -/
+theorem gap_poll_once_per_visit_outcomes (c c' : Ctx) (now : Int) (att : Attempt)
+    (hst : c.s.st = .passToken true att) (htx : c.tx = none) (h : doPassToken c now = .ok c') :
+    (c'.tx = none ∧ c'.s.st = .passToken true att ∧ c'.s.gap = c.s.gap) ∨
+    (∃ a, gapAdvance (stamped c.s now) = some (.doPoll a) ∧ c'.tx = some (statusRequestBytes a c.s.p.address) ∧
+          c'.s.st = .awaitStatus a ∧ c'.s.gap = .doPoll a) ∨
+    (∃ r, gapAdvance (stamped c.s now) = some (.waiting r) ∧ c'.tx = some (tokenBytes c.s.ring.ns c.s.p.address) ∧
+          c'.s.gap = .waiting r ∧ (c'.s.st = .checkTokenPass att ∨ c'.s.st = .useToken ⟨now, none⟩ false)) := by
+  by_cases hw : SyncOver c.s now
+  · have hstep := gap_poll_once_per_visit c now att hst htx hw
+    cases hga : gapAdvance (stamped c.s now) with
+    | none => rw [hga] at hstep; rw [hstep] at h; cases h
+    | some g =>
+      rw [hga] at hstep
+      cases g with
+      | doPoll a =>
+        simp only at hstep
+        by_cases hne : a = c.s.p.address
+        · -- the code would trip its `debug_assert_ne!`: no regular outcome
+          exfalso
+          have hw' : (waitSyncPause c.s now).2 = false := hw
+          unfold doPassToken at h
+          rw [hst] at h
+          simp only [hw', sync_stamped, if_true, Bool.false_eq_true, if_false, hga, upd] at h
+          rw [transmitGapPoll_self { c with s := { (stamped c.s now) with gap := .doPoll a } } now (by simp [hne])] at h
+          cases h
+        · rw [hstep hne] at h
+          cases h
+          exact Or.inr (Or.inl ⟨a, rfl, rfl, rfl, rfl⟩)
+      | waiting r =>
+        simp only at hstep
+        rw [hstep, passTokenOn_eq { c with s := { (stamped c.s now) with gap := .waiting r } } now att true att (by simpa using hst) htx] at h
+        cases h
+        refine Or.inr (Or.inr ⟨r, rfl, rfl, rfl, ?_⟩)
+        simp only
+        split
+        · exact Or.inr rfl
+        · exact Or.inl rfl
+  · rw [pass_token_waits c now true att hst hw] at h
+    cases h
+    exact Or.inl ⟨htx, by simpa using hst, rfl⟩
+
+/-- After the answer or the time-out the token is passed WITHOUT another GAP poll: `do_pass_token`
+with `do_gap = No` leaves the GAP state alone and transmits the token to NS. -/
+theorem pass_token_without_gap (c : Ctx) (now : Int) (att : Attempt)
+    (hst : c.s.st = .passToken false att) (htx : c.tx = none) (hw : SyncOver c.s now) :
+    doPassToken c now =
+      .ok { c with
+        tx := some (tokenBytes c.s.ring.ns c.s.p.address),
+        s := { (markTx (stamped c.s now) now 3) with
+          ring := c.s.ring.witness c.s.p.address c.s.ring.ns,
+          st := if (c.s.ring.witness c.s.p.address c.s.ring.ns).ns = c.s.p.address
+                then FState.useToken ⟨now, none⟩ false else FState.checkTokenPass att } } := by
+  have hw' : (waitSyncPause c.s now).2 = false := hw
+  unfold doPassToken
+  rw [hst]
+  simp only [hw', sync_stamped, Bool.false_eq_true, if_false]
+  rw [passTokenOn_eq { c with s := stamped c.s now } now att false att (by simpa using hst) htx]
+  rfl
+
+/-- `do_await_status_response`, nothing received and the slot time not yet over: keep waiting. -/
+theorem await_status_waits (c : Ctx) (now : Int) (addr : Nat) (rx' : Bytes) (ret : Bool)
+    (hst : c.s.st = .awaitStatus addr) (hne : addr ≠ c.s.p.address) (hg : c.s.gap = .doPoll addr)
+    (hrx : receiveTelegram c.rx = .done rx' [] ret) (hex : ¬ SlotExpired c.s now) :
+    doAwaitStatusResponse c now = .ok { c with rx := rx', s := stamped c.s now } := by
+  have hex' : (checkSlotExpired c.s now).2 = false := by simpa [SlotExpired] using hex
+  unfold doAwaitStatusResponse
+  rw [hst]
+  simp only [awaitGap_silent c now addr rx' ret hne hg hrx, hex', Bool.false_eq_true, if_false]
+
+/-- … slot time over without an answer: straight on to `PassToken` with `do_gap = No`, handled in
+the same poll. -/
+theorem await_status_timeout (c : Ctx) (now : Int) (addr : Nat) (rx' : Bytes) (ret : Bool)
+    (hst : c.s.st = .awaitStatus addr) (hne : addr ≠ c.s.p.address) (hg : c.s.gap = .doPoll addr)
+    (hrx : receiveTelegram c.rx = .done rx' [] ret) (hex : SlotExpired c.s now) :
+    doAwaitStatusResponse c now =
+      doPassToken { c with rx := rx', s := { (stamped c.s now) with st := .passToken false .first } } now := by
+  have hex' : (checkSlotExpired c.s now).2 = true := hex
+  unfold doAwaitStatusResponse
+  rw [hst]
+  simp only [awaitGap_silent c now addr rx' ret hne hg hrx, hex', if_true]
+  simp [tr, toPassToken, hst, Res.bind]
+
+/-- … a response telegram from the polled address: the ring view is updated iff the reply admits
+the station (`Admits`), and the state becomes `PassToken` with `do_gap = No`. -/
+theorem await_status_reply (c : Ctx) (now : Int) (addr : Nat) (rx' : Bytes) (t : Telegram) (l ret : Bool)
+    (rest : List (Telegram × Bool)) (state : ResponseState) (status : ResponseStatus)
+    (hst : c.s.st = .awaitStatus addr) (hne : addr ≠ c.s.p.address) (hg : c.s.gap = .doPoll addr)
+    (hrx : receiveTelegram c.rx = .done rx' ((t, l) :: rest) ret)
+    (hr : replyOf c.s.p.address addr t = some (state, status)) :
+    doAwaitStatusResponse c now =
+      if Admits state status then
+        match c.s.ring.setNextStation addr with
+        | some r => .ok { c with rx := rx', s := { (markRx c.s now) with ring := r, st := .passToken false .first } }
+        | none => .panic "set_next_station index"
+      else .ok { c with rx := rx', s := { (markRx c.s now) with st := .passToken false .first } } := by
+  have hst' : (markRx c.s now).st = .awaitStatus addr := by simpa [markRx, markBusActivity] using hst
+  unfold doAwaitStatusResponse
+  rw [hst]
+  by_cases ha : Admits state status
+  · simp only [awaitGap_admit c now addr rx' t l ret rest state status hne hg hrx hr ha, if_pos ha]
+    cases c.s.ring.setNextStation addr with
+    | none => rfl
+    | some r => simp [tr, toPassToken, hst']
+  · simp only [awaitGap_other c now addr rx' t l ret rest state status hne hg hrx hr ha, if_neg ha]
+    simp [tr, toPassToken, hst']
+
+/-- … anything else: the station backs off into `ActiveIdle` (it no longer holds the token). -/
+theorem await_status_unexpected (c : Ctx) (now : Int) (addr : Nat) (rx' : Bytes) (t : Telegram) (l ret : Bool)
+    (rest : List (Telegram × Bool))
+    (hst : c.s.st = .awaitStatus addr) (hne : addr ≠ c.s.p.address) (hg : c.s.gap = .doPoll addr)
+    (hrx : receiveTelegram c.rx = .done rx' ((t, l) :: rest) ret)
+    (hr : replyOf c.s.p.address addr t = none) :
+    doAwaitStatusResponse c now =
+      .ok { c with rx := rx', s := { (markRx c.s now) with st := .activeIdle none none 0 } } := by
+  have hst' : (markRx c.s now).st = .awaitStatus addr := by simpa [markRx, markBusActivity] using hst
+  unfold doAwaitStatusResponse
+  rw [hst]
+  simp only [awaitGap_unexpected c now addr rx' t l ret rest hne hg hrx hr]
+  simp [tr, toActiveIdle, hst']
+
+/-- **No second GAP poll in the same visit**: whatever is received, `do_await_status_response`
+transmits nothing or the token to NS — never another status request — and it leaves
+`AwaitStatusResponse` only towards `PassToken` with `do_gap = No`, (on a time-out) directly on to the
+supervision of the token pass, or (unexpected telegram) into `ActiveIdle`. -/
+theorem await_status_outcomes (c c' : Ctx) (now : Int) (addr : Nat)
+    (hst : c.s.st = .awaitStatus addr) (htx : c.tx = none) (h : doAwaitStatusResponse c now = .ok c') :
+    (c'.tx = none ∧ c'.s.gap = c.s.gap ∧
+      (c'.s.st = .awaitStatus addr ∨ c'.s.st = .passToken false .first ∨ c'.s.st = .activeIdle none none 0)) ∨
+    (c'.tx = some (tokenBytes c.s.ring.ns c.s.p.address) ∧ c'.s.gap = c.s.gap ∧
+      (c'.s.st = .checkTokenPass .first ∨ c'.s.st = .useToken ⟨now, none⟩ false)) := by
+  by_cases hne : addr = c.s.p.address
+  · exfalso
+    have := awaitGap_self c now addr hne
+    unfold doAwaitStatusResponse at h
+    rw [hst] at h
+    simp only at h
+    split at h <;> simp_all
+  by_cases hg' : c.s.gap ≠ .doPoll addr
+  · exfalso
+    have := awaitGap_wrongGap c now addr hne hg'
+    unfold doAwaitStatusResponse at h
+    rw [hst] at h
+    simp only at h
+    split at h <;> simp_all
+  have hg : c.s.gap = .doPoll addr := Decidable.not_not.mp hg'
+  cases hrx : receiveTelegram c.rx with
+  | panic =>
+    exfalso
+    obtain ⟨m, hm⟩ := awaitGap_rxPanic c now addr hne hg (Or.inl hrx)
+    unfold doAwaitStatusResponse at h
+    rw [hst] at h
+    simp only at h
+    split at h <;> simp_all
+  | hang =>
+    exfalso
+    obtain ⟨m, hm⟩ := awaitGap_rxPanic c now addr hne hg (Or.inr hrx)
+    unfold doAwaitStatusResponse at h
+    rw [hst] at h
+    simp only at h
+    split at h <;> simp_all
+  | done rx' calls ret =>
+    cases calls with
+    | nil =>
+      by_cases hex : SlotExpired c.s now
+      · rw [await_status_timeout c now addr rx' ret hst hne hg hrx hex] at h
+        obtain ⟨c1, hc1⟩ : ∃ c1 : Ctx, c1 = { c with rx := rx', s := { (stamped c.s now) with st := .passToken false .first } } :=
+          ⟨_, rfl⟩
+        rw [← hc1] at h
+        have h1 : c1.s.st = .passToken false .first := by rw [hc1]
+        have h2 : c1.tx = none := by rw [hc1]; exact htx
+        have h3 : c1.s.ring = c.s.ring ∧ c1.s.p = c.s.p ∧ c1.s.gap = c.s.gap := by rw [hc1]; exact ⟨rfl, rfl, rfl⟩
+        by_cases hw : SyncOver c1.s now
+        · rw [pass_token_without_gap c1 now .first h1 h2 hw] at h
+          cases h
+          refine Or.inr ⟨by simp only [h3.1, h3.2.1], by simpa [markTx] using h3.2.2, ?_⟩
+          simp only
+          split
+          · exact Or.inr rfl
+          · exact Or.inl rfl
+        · rw [pass_token_waits c1 now false .first h1 hw] at h
+          cases h
+          exact Or.inl ⟨h2, by simpa using h3.2.2, Or.inr (Or.inl (by simpa using h1))⟩
+      · rw [await_status_waits c now addr rx' ret hst hne hg hrx hex] at h
+        cases h
+        exact Or.inl ⟨htx, rfl, Or.inl (by simpa using hst)⟩
+    | cons tl rest =>
+      obtain ⟨t, l⟩ := tl
+      cases hr : replyOf c.s.p.address addr t with
+      | none =>
+        rw [await_status_unexpected c now addr rx' t l ret rest hst hne hg hrx hr] at h
+        cases h
+        exact Or.inl ⟨htx, rfl, Or.inr (Or.inr rfl)⟩
+      | some ss =>
+        obtain ⟨state, status⟩ := ss
+        rw [await_status_reply c now addr rx' t l ret rest state status hst hne hg hrx hr] at h
+        split at h
+        · split at h
+          · cases h
+            exact Or.inl ⟨htx, rfl, Or.inr (Or.inl rfl)⟩
+          · cases h
+        · cases h
+          exact Or.inl ⟨htx, rfl, Or.inr (Or.inl rfl)⟩
+
+/-- **Only the own GAP is polled** (station level): the address `do_pass_token` polls at the end of
+a visit lies in the station's GAP with respect to its ring view at that poll — strictly between TS
+and NS, below HSA, never TS or NS.  (`hcur`: the sweep cursor is below HSA — part of the station
+invariant `Inv.gap` of C05.) -/
+theorem gap_poll_only_own_gap (s : Station) (a : Nat) (hts : s.p.address < s.p.hsa) (hh : s.p.hsa ≤ 126)
+    (hcur : ∀ cur, s.gap = .doPoll cur → cur < s.p.hsa) (h : gapAdvance s = some (.doPoll a)) :
+    InGap s.p.address s.ring.ns s.p.hsa a := by
+  have key : ∀ cur, cur < s.p.hsa → nextGap s cur = some (.doPoll a) → InGap s.p.address s.ring.ns s.p.hsa a := by
+    intro cur hc hn
+    unfold nextGap at hn
+    cases hp : nextGapPoll s.p.address s.ring.ns s.p.hsa cur with
+    | poll x =>
+      rw [hp] at hn
+      simp only [Option.some.injEq, GapState.doPoll.injEq] at hn
+      subst hn
+      exact next_gap_in_gap _ _ _ cur x (by omega) hh hc hp
+    | waiting => rw [hp] at hn; simp at hn
+    | panic => rw [hp] at hn; simp at hn
+  unfold gapAdvance at h
+  cases hg : s.gap with
+  | waiting rot =>
+    rw [hg] at h
+    simp only at h
+    split at h
+    · exact key _ hts h
+    · simp at h
+  | doPoll cur =>
+    rw [hg] at h
+    exact key cur (hcur cur hg) h
+
+/-- The same for the post-claim scan (`claim_scan_step` polls `next_gap_poll(cur)`). -/
+theorem claim_poll_only_own_gap (s : Station) (cur a : Nat) (hts : s.p.address < s.p.hsa) (hh : s.p.hsa ≤ 126)
+    (hcur : cur < s.p.hsa) (h : nextGap s cur = some (.doPoll a)) :
+    InGap s.p.address s.ring.ns s.p.hsa a := by
+  unfold nextGap at h
+  cases hp : nextGapPoll s.p.address s.ring.ns s.p.hsa cur with
+  | poll x =>
+    rw [hp] at h
+    simp only [Option.some.injEq, GapState.doPoll.injEq] at h
+    subst h
+    exact next_gap_in_gap _ _ _ cur x (by omega) hh hcur hp
+  | waiting => rw [hp] at h; simp at h
+  | panic => rw [hp] at h; simp at h
+
+/-- **End of the token hold** (`passNow`, since the repair of K3): `do_use_token` moves to `PassToken`
+with `do_gap = Yes` and runs `do_pass_token` in the same poll.  So that poll transmits nothing (pause
+not over), or the ONE GAP poll of this visit (then `AwaitStatusResponse` for the polled address), or
+the token to NS. -/
+theorem hold_end_outcomes (c c' : Ctx) (now : Int) (htx : c.tx = none) (h : passNow c now = .ok c') :
+    (c'.tx = none ∧ c'.s.st = .passToken true .first ∧ c'.s.gap = c.s.gap) ∨
+    (∃ a, gapAdvance (stamped c.s now) = some (.doPoll a) ∧ c'.tx = some (statusRequestBytes a c.s.p.address) ∧
+          c'.s.st = .awaitStatus a ∧ c'.s.gap = .doPoll a) ∨
+    (∃ r, gapAdvance (stamped c.s now) = some (.waiting r) ∧ c'.tx = some (tokenBytes c.s.ring.ns c.s.p.address) ∧
+          c'.s.gap = .waiting r ∧ (c'.s.st = .checkTokenPass .first ∨ c'.s.st = .useToken ⟨now, none⟩ false)) := by
+  unfold passNow at h
+  cases htr : tr c (fun s => toPassToken s true .first) "transition_pass_token" with
+  | panic m => rw [htr] at h; cases h
+  | ok c1 =>
+    rw [htr] at h
+    simp only [Res.bind] at h
+    obtain ⟨s', hs', rfl⟩ := tr_cases _ _ _ _ htr
+    have hs'eq : s' = { c.s with st := .passToken true .first } := by
+      unfold toPassToken at hs'
+      split at hs' <;> first | (cases hs'; rfl) | cases hs'
+    subst hs'eq
+    exact gap_poll_once_per_visit_outcomes { c with s := { c.s with st := .passToken true .first } } c' now .first rfl htx h
+
+/-- **What a poll of the application phase puts on the bus** (`Station.poll` in `UseToken` /
+`AwaitDataResponse`, any inputs): nothing; or a message cycle of an application (its
+`transmit_telegram` returned a telegram; the station stays in the visit); or — the token hold ends in
+this poll — the own GAP poll, after which the station is in `AwaitStatusResponse` for the polled
+address; or the token.  Hence a status request in this phase is either an application's or is counted
+by `gapPolls`. -/
+theorem visit_poll_outcomes (s : Station) (apps : Apps) (now : Int) (phyTx : Bool) (rx : Bytes) (c' : Ctx)
+    (hin : StationVisit.inVisit s.st = true) (h : s.poll apps now phyTx rx = .ok c') :
+    c'.tx = none ∨
+    (StationVisit.hasSend c'.calls = true ∧ StationVisit.inVisit c'.s.st = true) ∨
+    (∃ a, c'.tx = some (statusRequestBytes a s.p.address) ∧ c'.s.st = .awaitStatus a ∧ c'.s.gap = .doPoll a) ∨
+    (∃ ns, c'.tx = some (tokenBytes ns s.p.address) ∧
+      (c'.s.st = .checkTokenPass .first ∨ c'.s.st = .useToken ⟨now, none⟩ false)) := by
+  rcases StationVisit.poll_visit_cases s apps now phyTx rx c' hin h with h1 | h1 | ⟨c1, h1, h2, h3⟩
+  · exact Or.inl h1
+  · exact Or.inr (Or.inl h1)
+  · rcases hold_end_outcomes c1 c' now h1 h3 with ⟨ht, _, _⟩ | ⟨a, _, ht, hs, hg⟩ | ⟨r, _, ht, _, hs⟩
+    · exact Or.inl ht
+    · exact Or.inr (Or.inr (Or.inl ⟨a, by rw [ht, h2], hs, hg⟩))
+    · exact Or.inr (Or.inr (Or.inr ⟨c1.s.ring.ns, by rw [ht, h2], hs⟩))
+
+/-! ### … as one theorem over the polls of a whole token visit -/
+
+/-- One poll (`Station.poll`, any inputs) of a station that is past the application phase of its
+visit (`phase ≥ 1`): a status request (SD1 frame) is transmitted only on the step from phase 1
+(`PassToken`, `do_gap = Yes`) to phase 2 (`AwaitStatusResponse`), and from phase 2 or 3 the station
+never returns to phase 1. -/
+theorem poll_gap_phase (s : Station) (apps : Apps) (now : Int) (phyTx : Bool) (rx : Bytes) (c' : Ctx) (ph : Nat)
+    (hph : phase s.st = some ph) (hne : ph ≠ 0) (h : s.poll apps now phyTx rx = .ok c') :
+    (isSd1 c'.tx = true → ph = 1 ∧ phase c'.s.st = some 2) ∧
+    (2 ≤ ph → phase c'.s.st ≠ some 1) := by
+  have h1 : s.st ≠ .offline := by intro hh; rw [hh] at hph; simp [phase] at hph
+  have h2 : s.st ≠ .passiveIdle := by intro hh; rw [hh] at hph; simp [phase] at hph
+  rcases poll_cases s apps now phyTx rx c' h1 h2 h with rfl | hd
+  · -- own transmission still running
+    refine ⟨fun hh => (by simp [isSd1] at hh), fun h2 => ?_⟩
+    simp only [markBusActivity]
+    rw [hph]
+    simp
+    omega
+  · have hc := checkBusActivity_core s now rx.length
+    obtain ⟨s1, hs1⟩ : ∃ s1, checkBusActivity s now rx.length = s1 := ⟨_, rfl⟩
+    rw [hs1] at hd hc
+    unfold dispatch at hd
+    cases hst : s.st with
+    | passToken g att =>
+      have hst1 : s1.st = .passToken g att := by rw [hc.1]; exact hst
+      simp only [hst1] at hd
+      cases g with
+      | true =>
+        have hph1 : ph = 1 := by rw [hst] at hph; simp [phase] at hph; omega
+        rcases gap_poll_once_per_visit_outcomes { s := s1, apps := apps, rx := rx } c' now att hst1 rfl hd with
+          ⟨ht, _, _⟩ | ⟨a, _, ht, hs, _⟩ | ⟨r, _, ht, _, _⟩
+        · exact ⟨fun hh => (by rw [ht] at hh; simp [isSd1] at hh), fun h2 => by omega⟩
+        · exact ⟨fun _ => ⟨hph1, by rw [hs]; rfl⟩, fun h2 => by omega⟩
+        · exact ⟨fun hh => (by rw [ht, isSd1_token] at hh; cases hh), fun h2 => by omega⟩
+      | false =>
+        by_cases hw : SyncOver s1 now
+        · rw [pass_token_without_gap { s := s1, apps := apps, rx := rx } now att hst1 rfl hw] at hd
+          have hd' := Res.ok.inj hd
+          subst hd'
+          refine ⟨fun hh => (by simp only [isSd1_token] at hh; cases hh), fun _ => ?_⟩
+          simp only
+          split <;> simp [phase]
+        · rw [pass_token_waits { s := s1, apps := apps, rx := rx } now false att hst1 hw] at hd
+          have hd' := Res.ok.inj hd
+          subst hd'
+          exact ⟨fun hh => (by simp [isSd1] at hh), fun _ => by simp [hst1, phase]⟩
+    | awaitStatus addr =>
+      have hst1 : s1.st = .awaitStatus addr := by rw [hc.1]; exact hst
+      simp only [hst1] at hd
+      rcases await_status_outcomes { s := s1, apps := apps, rx := rx } c' now addr hst1 rfl hd with
+        ⟨ht, _, hs⟩ | ⟨ht, _, hs⟩
+      · refine ⟨fun hh => (by rw [ht] at hh; simp [isSd1] at hh), fun _ => ?_⟩
+        rcases hs with hs | hs | hs <;> (rw [hs]; simp [phase])
+      · refine ⟨fun hh => (by rw [ht, isSd1_token] at hh; cases hh), fun _ => ?_⟩
+        rcases hs with hs | hs <;> (rw [hs]; simp [phase])
+    | useToken d f => rw [hst] at hph; simp [phase] at hph; omega
+    | awaitData a d => rw [hst] at hph; simp [phase] at hph; omega
+    | _ => rw [hst] at hph; simp [phase] at hph
+
+/-- Outside a visit nothing is counted. -/
+theorem gapPolls_none (s : Station) (apps : Apps) (ins : List (Int × Bool × Bytes)) (h : phase s.st = none) :
+    gapPolls s apps ins = some 0 := by
+  cases ins with
+  | nil => rfl
+  | cons x rest => obtain ⟨now, phyTx, rx⟩ := x; simp [gapPolls, h]
+
+/-- **`one_gap_poll_per_visit`**: over ANY sequence of polls of one token visit — arbitrary times,
+received bytes, PHY states, application scripts, station state, from the token receipt (`UseToken`)
+to the token pass — the station transmits at most ONE FDL status request of its own (one that is
+not an application's message cycle, see `gapPolls` and `visit_poll_outcomes`), and after that request
+no further one before the token has left (or a new visit has begun).  (The post-claim sweep is not a
+visit in this sense: `ClaimToken` has no phase; its behaviour is `claim_scan_step` /
+`claim_sweeps_whole_gap`.) -/
+theorem one_gap_poll_per_visit : ∀ (ins : List (Int × Bool × Bytes)) (s : Station) (apps : Apps) (n : Nat),
+    gapPolls s apps ins = some n →
+    n + (if phase s.st = some 2 ∨ phase s.st = some 3 then 1 else 0) ≤ 1 := by
+  intro ins
+  induction ins with
+  | nil =>
+    intro s apps n h
+    simp only [gapPolls, Option.some.injEq] at h
+    subst h
+    split <;> omega
+  | cons x rest ih =>
+    intro s apps n h
+    obtain ⟨now, phyTx, rx⟩ := x
+    cases hph : phase s.st with
+    | none =>
+      rw [gapPolls_none s apps _ hph] at h
+      cases h
+      simp
+    | some ph =>
+      simp only [gapPolls, hph] at h
+      cases hp : s.poll apps now phyTx rx with
+      | panic m => rw [hp] at h; cases h
+      | ok c' =>
+        rw [hp] at h
+        simp only at h
+        obtain ⟨k, hk⟩ : ∃ k : Nat, k = if isSd1 c'.tx = true ∧ (ph ≠ 0 ∨ phase c'.s.st = some 2) then 1 else 0 :=
+          ⟨_, rfl⟩
+        rw [← hk] at h
+        have hk01 : k = 0 ∨ k = 1 := by rw [hk]; split <;> simp
+        by_cases h0 : ph = 0
+        · -- application phase: the only counted request is the one that leads to AwaitStatusResponse
+          subst h0
+          simp only [ne_eq, not_true_eq_false, false_and, if_false, Option.map_eq_some_iff] at h
+          obtain ⟨m, hm, rfl⟩ := h
+          have hrec := ih c'.s c'.apps m hm
+          have hw0 : (if some 0 = some 2 ∨ some 0 = some 3 then 1 else 0) = 0 := by simp
+          rw [hw0]
+          rcases hk01 with hk0 | hk1
+          · rw [hk0]; omega
+          · have hp2 : phase c'.s.st = some 2 := by
+              rw [hk1] at hk
+              split at hk
+              · rename_i hc
+                rcases hc.2 with hc2 | hc2
+                · exact absurd rfl hc2
+                · exact hc2
+              · cases hk
+            rw [hp2] at hrec
+            simp at hrec
+            omega
+        · have hv := poll_gap_phase s apps now phyTx rx c' ph hph h0 hp
+          -- a counted request comes from phase 1 and leads to phase 2
+          have hk1 : k = 1 → ph = 1 ∧ phase c'.s.st = some 2 := by
+            intro hk1
+            rw [hk1] at hk
+            split at hk
+            · rename_i hc; exact hv.1 hc.1
+            · cases hk
+          split at h
+          · -- a new visit begins: stop
+            simp only [Option.some.injEq] at h
+            subst h
+            rcases hk01 with hk0 | hk1'
+            · rw [hk0]; split <;> omega
+            · have := hk1 hk1'
+              rw [hk1', if_neg (by simp [this.1])]
+              omega
+          · rename_i hstop
+            simp only [Option.map_eq_some_iff] at h
+            obtain ⟨m, hm, rfl⟩ := h
+            have hrec := ih c'.s c'.apps m hm
+            rcases hk01 with hk0 | hk1'
+            · rw [hk0]
+              simp only [Nat.add_zero]
+              -- no request in this poll
+              cases hph' : phase c'.s.st with
+              | none =>
+                rw [gapPolls_none c'.s c'.apps rest hph'] at hm
+                cases hm
+                split <;> omega
+              | some ph' =>
+                by_cases h23 : ph = 2 ∨ ph = 3
+                · have hge : 2 ≤ ph := by omega
+                  have hne1 := hv.2 hge
+                  rw [hph'] at hne1 hrec
+                  have hne0 : ph' ≠ 0 := by
+                    intro hh; apply hstop; exact ⟨h0, by rw [hph', hh]⟩
+                  -- ph' ∈ {2, 3}: the induction hypothesis already carries the 1
+                  have hle := phase_le3 c'.s.st ph' hph'
+                  have hne1' : ph' ≠ 1 := fun hh => hne1 (by rw [hh])
+                  have : ph' = 2 ∨ ph' = 3 := by omega
+                  rw [if_pos (by simpa using this)] at hrec
+                  rw [if_pos (by simpa using h23)]
+                  omega
+                · rw [if_neg (by simpa using h23)]
+                  split at hrec <;> omega
+            · obtain ⟨hp1, hp2⟩ := hk1 hk1'
+              rw [hp2] at hrec
+              simp at hrec
+              rw [hk1', hp1]
+              simp
+              omega
+
+/-- Plain form: at most one own status request per token visit. -/
+theorem one_gap_poll_per_visit_le (s : Station) (apps : Apps) (ins : List (Int × Bool × Bytes)) (n : Nat)
+    (h : gapPolls s apps ins = some n) : n ≤ 1 := by
+  have := one_gap_poll_per_visit ins s apps n h
+  omega
+
+/-! ### The exception: the post-claim sweep of `ClaimToken` polls the whole GAP -/
+
+/-- Claiming the token: two token telegrams TS → TS (each after the synchronisation pause); each
+sets the LAS valid and (re)sets the GAP cursor to the own address, so the scan that follows starts
+with `next_gap_poll(TS)` and — by `sweep_exact` — covers the whole GAP. -/
+theorem claim_token_step (c : Ctx) (now : Int) (fuel : Nat) (step : ClaimStep)
+    (hstep : step = .firstToken ∨ step = .secondToken) (hst : c.s.st = .claimToken step)
+    (htx : c.tx = none) (hw : SyncOver c.s now) :
+    doClaimToken c now (fuel + 1) =
+      .ok { c with
+        tx := some (tokenBytes c.s.p.address c.s.p.address),
+        s := { (markTx (stamped c.s now) now 3) with
+          ring := c.s.ring.claimToken,
+          st := .claimToken (if step = .firstToken then .secondToken else .scan),
+          gap := .doPoll c.s.p.address } } := by
+  have hw' : (waitSyncPause c.s now).2 = false := hw
+  unfold doClaimToken
+  rw [hst]
+  rcases hstep with rfl | rfl <;>
+    simp [hw', sync_stamped, transmit, htx, Res.bind, upd, markTx, tokenBytes, sendToken]
+
+theorem claim_token_step_waits (c : Ctx) (now : Int) (fuel : Nat) (step : ClaimStep)
+    (hstep : step = .firstToken ∨ step = .secondToken) (hst : c.s.st = .claimToken step)
+    (hw : ¬ SyncOver c.s now) :
+    doClaimToken c now (fuel + 1) = .ok { c with s := stamped c.s now } := by
+  have hw' : (waitSyncPause c.s now).2 = true := by simpa [SyncOver] using hw
+  unfold doClaimToken
+  rw [hst]
+  rcases hstep with rfl | rfl <;> simp [hw', sync_stamped]
+
+/-- While the synchronisation pause is not over the scan step does nothing. -/
+theorem claim_scan_waits (c : Ctx) (now : Int) (fuel : Nat) (hst : c.s.st = .claimToken .scan)
+    (hw : ¬ SyncOver c.s now) : doClaimToken c now (fuel + 1) = .ok { c with s := stamped c.s now } := by
+  have : (waitSyncPause c.s now).2 = true := by simpa [SyncOver] using hw
+  unfold doClaimToken
+  rw [hst]
+  simp [this, sync_stamped]
+
+/-- **`claim_scan_step` (exact)**: one scan step of `do_claim_token` after the token was claimed.
+* GAP state `Waiting` (the sweep is complete): on to `PassToken` with `do_gap = No`;
+* GAP state `DoPoll cur`: the cursor advances by exactly one `next_gap_poll` step; if that yields
+  another GAP address `a`, ONE status request is sent to `a` and its answer awaited
+  (`ScanAwaitResponse a`), otherwise the GAP state becomes `Waiting` (and the next poll passes the
+  token).  So the station keeps the token and polls address after address until the sweep ends. -/
+theorem claim_scan_step (c : Ctx) (now : Int) (fuel : Nat) (hst : c.s.st = .claimToken .scan)
+    (htx : c.tx = none) (hw : SyncOver c.s now) :
+    doClaimToken c now (fuel + 1) =
+      match c.s.gap with
+      | .waiting _ => .ok { c with s := { (stamped c.s now) with st := .passToken false .first } }
+      | .doPoll cur =>
+        match nextGap c.s cur with
+        | none => .panic "next_gap_poll overflow"
+        | some (.waiting r) => .ok { c with s := { (stamped c.s now) with gap := .waiting r } }
+        | some (.doPoll a) =>
+          if a = c.s.p.address then .panic "debug_assert_ne!(current_address, self.p.address)" else
+          .ok { c with tx := some (statusRequestBytes a c.s.p.address),
+                       s := { (markTx { (stamped c.s now) with gap := .doPoll a } now 6) with
+                              st := .claimToken (.scanAwait a) } } := by
+  have hw' : (waitSyncPause c.s now).2 = false := hw
+  unfold doClaimToken
+  rw [hst]
+  simp only [hw', sync_stamped, Bool.false_eq_true, if_false, stamped_gap]
+  cases hg : c.s.gap with
+  | waiting r => simp [tr, toPassToken, hst, hg]
+  | doPoll cur =>
+    simp only
+    have hn : nextGap (stamped c.s now) cur = nextGap c.s cur := rfl
+    rw [hn]
+    cases hng : nextGap c.s cur with
+    | none => rfl
+    | some g =>
+      cases g with
+      | waiting r =>
+        simp only [upd]
+        rw [transmitGapPoll_waiting { c with s := { (stamped c.s now) with gap := .waiting r } } now r rfl]
+      | doPoll a =>
+        simp only [upd]
+        by_cases hne : a = c.s.p.address
+        · rw [transmitGapPoll_self { c with s := { (stamped c.s now) with gap := .doPoll a } } now (by simp [hne])]
+          simp [hne]
+        · rw [transmitGapPoll_poll { c with s := { (stamped c.s now) with gap := .doPoll a } } now a rfl hne htx]
+          simp [hne]
+
+/-- `ScanAwaitResponse`, nothing received and the slot time not yet over: keep waiting. -/
+theorem claim_await_waits (c : Ctx) (now : Int) (fuel addr : Nat) (rx' : Bytes) (ret : Bool)
+    (hst : c.s.st = .claimToken (.scanAwait addr)) (hne : addr ≠ c.s.p.address) (hg : c.s.gap = .doPoll addr)
+    (hrx : receiveTelegram c.rx = .done rx' [] ret) (hex : ¬ SlotExpired c.s now) :
+    doClaimToken c now (fuel + 1) = .ok { c with rx := rx', s := stamped c.s now } := by
+  have hex' : (checkSlotExpired c.s now).2 = false := by simpa [SlotExpired] using hex
+  unfold doClaimToken
+  rw [hst]
+  simp only [awaitGap_silent c now addr rx' ret hne hg hrx, hex', Bool.false_eq_true, if_false]
+
+/-- … slot time over without an answer: the next scan step is taken in the same poll. -/
+theorem claim_await_timeout (c : Ctx) (now : Int) (fuel addr : Nat) (rx' : Bytes) (ret : Bool)
+    (hst : c.s.st = .claimToken (.scanAwait addr)) (hne : addr ≠ c.s.p.address) (hg : c.s.gap = .doPoll addr)
+    (hrx : receiveTelegram c.rx = .done rx' [] ret) (hex : SlotExpired c.s now) :
+    doClaimToken c now (fuel + 1) =
+      doClaimToken { c with rx := rx', s := { (stamped c.s now) with st := .claimToken .scan } } now fuel := by
+  have hex' : (checkSlotExpired c.s now).2 = true := hex
+  conv => lhs; unfold doClaimToken
+  rw [hst]
+  simp only [awaitGap_silent c now addr rx' ret hne hg hrx, hex', if_true]
+  rfl
+
+/-- … a response telegram from the polled address: the ring view is updated iff the reply admits
+the station, and the scan goes on (`Scan`) with the same cursor. -/
+theorem claim_await_reply (c : Ctx) (now : Int) (fuel addr : Nat) (rx' : Bytes) (t : Telegram) (l ret : Bool)
+    (rest : List (Telegram × Bool)) (state : ResponseState) (status : ResponseStatus)
+    (hst : c.s.st = .claimToken (.scanAwait addr)) (hne : addr ≠ c.s.p.address) (hg : c.s.gap = .doPoll addr)
+    (hrx : receiveTelegram c.rx = .done rx' ((t, l) :: rest) ret)
+    (hr : replyOf c.s.p.address addr t = some (state, status)) :
+    doClaimToken c now (fuel + 1) =
+      if Admits state status then
+        match c.s.ring.setNextStation addr with
+        | some r => .ok { c with rx := rx', s := { (markRx c.s now) with ring := r, st := .claimToken .scan } }
+        | none => .panic "set_next_station index"
+      else .ok { c with rx := rx', s := { (markRx c.s now) with st := .claimToken .scan } } := by
+  unfold doClaimToken
+  rw [hst]
+  by_cases ha : Admits state status
+  · simp only [awaitGap_admit c now addr rx' t l ret rest state status hne hg hrx hr ha, if_pos ha]
+    cases c.s.ring.setNextStation addr with
+    | none => rfl
+    | some r => simp [upd]
+  · simp only [awaitGap_other c now addr rx' t l ret rest state status hne hg hrx hr ha, if_neg ha]
+    simp [upd]
+
+/-- … anything else: back off into `ActiveIdle`. -/
+theorem claim_await_unexpected (c : Ctx) (now : Int) (fuel addr : Nat) (rx' : Bytes) (t : Telegram) (l ret : Bool)
+    (rest : List (Telegram × Bool))
+    (hst : c.s.st = .claimToken (.scanAwait addr)) (hne : addr ≠ c.s.p.address) (hg : c.s.gap = .doPoll addr)
+    (hrx : receiveTelegram c.rx = .done rx' ((t, l) :: rest) ret)
+    (hr : replyOf c.s.p.address addr t = none) :
+    doClaimToken c now (fuel + 1) =
+      .ok { c with rx := rx', s := { (markRx c.s now) with st := .activeIdle none none 0 } } := by
+  have hst' : (markRx c.s now).st = .claimToken (.scanAwait addr) := by simpa [markRx, markBusActivity] using hst
+  unfold doClaimToken
+  rw [hst]
+  simp only [awaitGap_unexpected c now addr rx' t l ret rest hne hg hrx hr]
+  simp [tr, toActiveIdle, hst']
+
+/-! ### … and as one theorem over the polls of the whole post-claim scan (silent bus) -/
+
+theorem scanOk_stamped (s : Station) (now : Int) (h : ScanOk s) : ScanOk (stamped s now) :=
+  ⟨h.addr, h.hsa, h.gap, h.await⟩
+
+/-- One scan step (`Scan`) transmits exactly the head of what remained of the sweep. -/
+theorem claim_scan_stepOk (c c' : Ctx) (now : Int) (fuel : Nat) (hst : c.s.st = .claimToken .scan)
+    (htx : c.tx = none) (hok : ScanOk c.s) (h : doClaimToken c now (fuel + 1) = .ok c') : StepOk c.s c' := by
+  by_cases hw : SyncOver c.s now
+  · rw [claim_scan_step c now fuel hst htx hw] at h
+    cases hg : c.s.gap with
+    | waiting r =>
+      rw [hg] at h
+      have h' := Res.ok.inj h
+      subst h'
+      refine ⟨?_, rfl, rfl, Or.inr ⟨rfl, ?_⟩⟩
+      · simp [htx, reqs, remaining, hg]
+      · simp [remaining, hg]
+    | doPoll cur =>
+      rw [hg] at h
+      simp only [nextGap] at h
+      have hc := hok.gap cur hg
+      cases hn : nextGapPoll c.s.p.address c.s.ring.ns c.s.p.hsa cur with
+      | panic => rw [hn] at h; cases h
+      | waiting =>
+        rw [hn] at h
+        have h' := Res.ok.inj h
+        subst h'
+        refine ⟨?_, rfl, rfl, Or.inl ⟨by simp [hst, inScan], ?_⟩⟩
+        · simp [htx, reqs, remaining, hg, sweepFrom_end _ _ _ _ _ hn]
+        · exact ⟨hok.addr, hok.hsa, fun cur' hh => by simp at hh, fun a' hh => by simp [hst] at hh⟩
+      | poll a =>
+        rw [hn] at h
+        have hs := sweepFrom_step _ _ _ cur a hok.addr hok.hsa hc hn
+        simp only [if_neg hs.2.2] at h
+        have h' := Res.ok.inj h
+        subst h'
+        refine ⟨?_, rfl, rfl, Or.inl ⟨by simp [inScan], ?_⟩⟩
+        · simp [reqs, remaining, hg, markTx, hs.1]
+        · refine ⟨hok.addr, hok.hsa, fun cur' hh => ?_, fun a' hh => ?_⟩
+          · simp [markTx] at hh; subst hh; exact hs.2.1
+          · simp [markTx] at hh; subst hh; exact ⟨rfl, hs.2.2⟩
+  · rw [claim_scan_waits c now fuel hst hw] at h
+    have h' := Res.ok.inj h
+    subst h'
+    exact ⟨by simp [htx, reqs_congr c.s (stamped c.s now) rfl rfl rfl], rfl, rfl,
+      Or.inl ⟨by simp [hst, inScan], scanOk_stamped c.s now hok⟩⟩
+
+/-- One step in `ScanAwaitResponse` with nothing received: wait, or — slot time over — poll the next
+address at once. -/
+theorem claim_await_stepOk (c c' : Ctx) (now : Int) (fuel addr : Nat)
+    (hst : c.s.st = .claimToken (.scanAwait addr)) (htx : c.tx = none) (hok : ScanOk c.s)
+    (hsil : Silent c.rx) (h : doClaimToken c now (fuel + 2) = .ok c') : StepOk c.s c' := by
+  obtain ⟨rx', ret, hrx⟩ := hsil
+  obtain ⟨hg, hne⟩ := hok.await addr hst
+  by_cases hex : SlotExpired c.s now
+  · rw [claim_await_timeout c now (fuel + 1) addr rx' ret hst hne hg hrx hex] at h
+    obtain ⟨c2, hc2⟩ : ∃ c2 : Ctx, c2 = { c with rx := rx', s := { (stamped c.s now) with st := .claimToken .scan } } :=
+      ⟨_, rfl⟩
+    rw [← hc2] at h
+    have hok2 : ScanOk c2.s := by
+      rw [hc2]
+      exact ⟨hok.addr, hok.hsa, hok.gap, fun a' hh => by simp at hh⟩
+    have := claim_scan_stepOk c2 c' now fuel (by rw [hc2]) (by rw [hc2]; exact htx) hok2 h
+    have hr : reqs c2.s = reqs c.s := by rw [hc2]; exact reqs_congr c.s _ rfl rfl rfl
+    have hp : c2.s.p = c.s.p := by rw [hc2]; rfl
+    have hring : c2.s.ring = c.s.ring := by rw [hc2]; rfl
+    exact ⟨by rw [this.1, hr], by rw [this.2.1, hp], by rw [this.2.2.1, hring], this.2.2.2⟩
+  · rw [claim_await_waits c now (fuel + 1) addr rx' ret hst hne hg hrx hex] at h
+    have h' := Res.ok.inj h
+    subst h'
+    exact ⟨by simp [htx, reqs_congr c.s (stamped c.s now) rfl rfl rfl], rfl, rfl,
+      Or.inl ⟨by simp [hst, inScan], scanOk_stamped c.s now hok⟩⟩
+
+/-- One whole `poll` during the scan, nothing (complete) received. -/
+theorem claim_poll_stepOk (s : Station) (apps : Apps) (now : Int) (phyTx : Bool) (rx : Bytes) (c' : Ctx)
+    (hin : inScan s.st = true) (hok : ScanOk s) (hsil : Silent rx)
+    (h : s.poll apps now phyTx rx = .ok c') : StepOk s c' := by
+  have h1 : s.st ≠ .offline := by intro hh; rw [hh] at hin; simp [inScan] at hin
+  have h2 : s.st ≠ .passiveIdle := by intro hh; rw [hh] at hin; simp [inScan] at hin
+  rcases poll_cases s apps now phyTx rx c' h1 h2 h with rfl | hd
+  · exact ⟨by simp [reqs_congr s (markBusActivity s now) rfl rfl rfl], rfl, rfl,
+      Or.inl ⟨by simpa [markBusActivity] using hin, ⟨hok.addr, hok.hsa, hok.gap, hok.await⟩⟩⟩
+  · have hc := checkBusActivity_core s now rx.length
+    obtain ⟨s1, hs1⟩ : ∃ s1, checkBusActivity s now rx.length = s1 := ⟨_, rfl⟩
+    rw [hs1] at hd hc
+    have hok1 : ScanOk s1 :=
+      ⟨by rw [hc.2.1]; exact hok.addr, by rw [hc.2.1]; exact hok.hsa, by rw [hc.2.2.2, hc.2.1]; exact hok.gap,
+       by rw [hc.1, hc.2.2.2, hc.2.1]; exact hok.await⟩
+    have hr : reqs s1 = reqs s := reqs_congr s s1 hc.2.1 hc.2.2.1 hc.2.2.2
+    have lift : StepOk s1 c' → StepOk s c' := fun hh =>
+      ⟨by rw [hh.1, hr], by rw [hh.2.1, hc.2.1], by rw [hh.2.2.1, hc.2.2.1], hh.2.2.2⟩
+    unfold dispatch at hd
+    cases hst : s.st with
+    | claimToken step =>
+      have hst1 : s1.st = .claimToken step := by rw [hc.1]; exact hst
+      simp only [hst1] at hd
+      cases step with
+      | scan => exact lift (claim_scan_stepOk { s := s1, apps := apps, rx := rx } c' now 1 hst1 rfl hok1 hd)
+      | scanAwait a => exact lift (claim_await_stepOk { s := s1, apps := apps, rx := rx } c' now 0 a hst1 rfl hok1 hsil hd)
+      | firstToken => rw [hst] at hin; simp [inScan] at hin
+      | secondToken => rw [hst] at hin; simp [inScan] at hin
+    | _ => rw [hst] at hin; simp [inScan] at hin
+
+/-- **`claim_sweeps_whole_gap`**: after claiming the token the station polls successive GAP addresses
+until the sweep ends, and only then passes the token.  For ANY sequence of polls (arbitrary times)
+during which no complete telegram arrives, the telegrams transmitted while scanning, followed by the
+requests still outstanding, are exactly the status requests of the sweep that was outstanding at
+the start; parameters and ring view stay; and if the station has left the scan it is in `PassToken`
+(`do_gap = No`) with nothing outstanding: it HAS polled the whole sweep — after `claim_token_step`
+(cursor = TS) that is, by `sweep_exact`, exactly its GAP, each address once, in ascending order. -/
+theorem claim_sweeps_whole_gap : ∀ (ins : List (Int × Bool × Bytes)) (s : Station) (apps : Apps)
+    (l : List Bytes) (s' : Station),
+    (∀ i ∈ ins, Silent i.2.2) → inScan s.st = true → ScanOk s → claimRun s apps ins = some (l, s') →
+    l ++ reqs s' = reqs s ∧ s'.p = s.p ∧ s'.ring = s.ring ∧
+    (inScan s'.st = true ∨ (s'.st = .passToken false .first ∧ l = reqs s)) := by
+  intro ins
+  induction ins with
+  | nil =>
+    intro s apps l s' _ hin _ h
+    simp only [claimRun, Option.some.injEq, Prod.mk.injEq] at h
+    obtain ⟨rfl, rfl⟩ := h
+    exact ⟨by simp, rfl, rfl, Or.inl hin⟩
+  | cons x rest ih =>
+    intro s apps l s' hsil hin hok h
+    obtain ⟨now, phyTx, rx⟩ := x
+    simp only [claimRun, hin, Bool.true_eq_false, if_false] at h
+    cases hp : s.poll apps now phyTx rx with
+    | panic m => rw [hp] at h; cases h
+    | ok c' =>
+      rw [hp] at h
+      simp only [Option.map_eq_some_iff] at h
+      obtain ⟨⟨l1, s1⟩, hrun, hl⟩ := h
+      simp only [Prod.mk.injEq] at hl
+      obtain ⟨rfl, rfl⟩ := hl
+      have hstep := claim_poll_stepOk s apps now phyTx rx c' hin hok (hsil (now, phyTx, rx) (by simp)) hp
+      obtain ⟨htx, hpp, hring, hnext⟩ := hstep
+      rcases hnext with ⟨hin', hok'⟩ | ⟨hpass, hrem⟩
+      · have := ih c'.s c'.apps l1 s1 (fun i hi => hsil i (by simp [hi])) hin' hok' hrun
+        obtain ⟨h1, h2, h3, h4⟩ := this
+        refine ⟨by rw [List.append_assoc, h1, htx], by rw [h2, hpp], by rw [h3, hring], ?_⟩
+        rcases h4 with h4 | ⟨h4, h5⟩
+        · exact Or.inl h4
+        · exact Or.inr ⟨h4, by rw [h5, htx]⟩
+      · -- the scan is complete: the run stops here
+        have hstop : claimRun c'.s c'.apps rest = some ([], c'.s) := by
+          cases rest with
+          | nil => rfl
+          | cons y r => simp [claimRun, hpass, inScan]
+        rw [hstop] at hrun
+        simp only [Option.some.injEq, Prod.mk.injEq] at hrun
+        obtain ⟨rfl, rfl⟩ := hrun
+        have hr0 : reqs c'.s = [] := by simp [reqs, hrem]
+        rw [hr0] at htx
+        refine ⟨by simp [hr0, ← htx], hpp, hring, Or.inr ⟨hpass, by simpa using htx⟩⟩
+
+/-! ## 2. The pause between two sweeps (`gap_wait_rotations`) -/
+
+/-- A sweep ends by `next_gap_poll` returning `Waiting { rotation_count: 0 }`. -/
+theorem sweep_ends_with_zero (s : Station) (cur r : Nat) (h : nextGap s cur = some (.waiting r)) : r = 0 :=
+  nextGap_waiting_zero s cur r h
+
+/-- While waiting, a token visit only counts: as long as the counter does not exceed
+`gap_wait_rotations` it is incremented (and by `gap_poll_once_per_visit` no request is sent, the
+token is passed on). -/
+theorem gap_wait_counts (s : Station) (rot : Nat) (hg : s.gap = .waiting rot) (h : rot ≤ s.p.gapWait) :
+    gapAdvance s = some (.waiting (rot + 1)) := by
+  unfold gapAdvance
+  rw [hg]
+  simp only
+  rw [if_neg (by omega)]
+
+/-- Once the counter exceeds `gap_wait_rotations` the next visit starts a new sweep behind the own
+address (`next_gap_poll(TS)`: a poll of TS+1 if that is a GAP address, else `Waiting 0` again). -/
+theorem gap_wait_over (s : Station) (rot : Nat) (hg : s.gap = .waiting rot) (h : s.p.gapWait < rot) :
+    gapAdvance s = nextGap s s.p.address := by
+  unfold gapAdvance
+  rw [hg]
+  simp only
+  rw [if_pos (by omega)]
+
+/-- **`gap_wait_pause`**: after a sweep has ended (`Waiting 0`) the next `gap_wait_rotations + 1`
+token visits only count (no GAP poll), and the visit after those — the
+`(gap_wait_rotations + 2)`-th — starts the next sweep.  (`gapAfter s k` = GAP state after `k` token
+visits with the ring view unchanged.) -/
+theorem gap_wait_pause (s : Station) (hg : s.gap = .waiting 0) :
+    (∀ k, k ≤ s.p.gapWait + 1 → gapAfter s k = some (.waiting k)) ∧
+    gapAfter s (s.p.gapWait + 2) = nextGap s s.p.address := by
+  constructor
+  · intro k hk
+    have := gapAfter_waiting k s 0 hg (by omega)
+    simpa using this
+  · rw [show s.p.gapWait + 2 = (s.p.gapWait + 1) + 1 by omega, gapAfter_add]
+    have := gapAfter_waiting (s.p.gapWait + 1) s 0 hg (by omega)
+    rw [this]
+    simp only [gapAfter, Nat.zero_add]
+    have hga : gapAdvance { s with gap := .waiting (s.p.gapWait + 1) } = nextGap s s.p.address :=
+      gap_wait_over { s with gap := .waiting (s.p.gapWait + 1) } (s.p.gapWait + 1) rfl (by show s.p.gapWait < s.p.gapWait + 1; omega)
+    rw [hga]
+    cases nextGap s s.p.address <;> rfl
+
+/-- **Every GAP address is polled within a bounded number of token visits**: with the ring view
+unchanged, after a sweep has ended every address of the own GAP is the poll address of one of the
+visits number `gap_wait_rotations + 2 … gap_wait_rotations + 1 + |sweep|`, where the sweep has fewer
+than HSA entries (and by `sweep_exact`/`sweep_nodup` exactly one per GAP address). -/
+theorem gap_polled_within (s : Station) (hg : s.gap = .waiting 0) (hts : s.p.address < s.p.hsa)
+    (hh : s.p.hsa ≤ 126) (a : Nat) (ha : InGap s.p.address s.ring.ns s.p.hsa a) :
+    (sweepFrom s.p.address s.ring.ns s.p.hsa s.p.hsa s.p.address).length ≤ s.p.hsa - 1 ∧
+    ∃ v, s.p.gapWait + 2 ≤ v ∧
+      v ≤ s.p.gapWait + 1 + (sweepFrom s.p.address s.ring.ns s.p.hsa s.p.hsa s.p.address).length ∧
+      gapAfter s v = some (.doPoll a) := by
+  constructor
+  · have := sweep_length s.p.address s.ring.ns s.p.hsa hts hh s.p.hsa s.p.address hts
+    omega
+  · have hmem := (sweep_exact s.p.address s.ring.ns s.p.hsa hts hh a).mpr ha
+    obtain ⟨j, hj, hja⟩ := List.mem_iff_getElem.mp hmem
+    refine ⟨(s.p.gapWait + 1) + (j + 1), by omega, by omega, ?_⟩
+    rw [gapAfter_add, gapAfter_waiting (s.p.gapWait + 1) s 0 hg (by omega)]
+    simp only [Nat.zero_add]
+    have hsw := gapAfter_sweep s.p.hsa { s with gap := .doPoll s.p.address } s.p.address rfl j a
+      (by simp only [List.getElem?_eq_getElem hj, hja])
+    rw [← hsw]
+    have h1 : gapAdvance { s with gap := .waiting (s.p.gapWait + 1) } = nextGap s s.p.address :=
+      gap_wait_over { s with gap := .waiting (s.p.gapWait + 1) } (s.p.gapWait + 1) rfl (by show s.p.gapWait < s.p.gapWait + 1; omega)
+    have h2 : gapAdvance { s with gap := .doPoll s.p.address } = nextGap s s.p.address := rfl
+    simp only [gapAfter, h1, h2]
+
+/-! ## 3. A polled station that reports to be a ready master becomes NS and gets the token -/
+
+/-- With the just-admitted station as successor the sweep is over: `next_gap_poll(a)` with NS = `a`
+yields `Waiting` (so neither `do_pass_token` at the next visit nor the post-claim scan polls beyond
+the new successor — the F1 overrun cases included: `a = TS-1`, `a = HSA-1`). -/
+theorem sweep_ends_at_new_successor (ts hsa a : Nat) (hts : ts < hsa) (hh : hsa ≤ 126) (ha : a < hsa)
+    (hne : a ≠ ts) : nextGapPoll ts a hsa a = .waiting := by
+  rw [next_gap_waiting_iff ts a hsa a (by omega) hh ha]
+  unfold InGap succAddr
+  intro h
+  generalize hs : (if a = hsa - 1 then 0 else a + 1) = x at h
+  have hx : (a = hsa - 1 ∧ x = 0) ∨ (a ≠ hsa - 1 ∧ x = a + 1) := by
+    split at hs
+    · left; omega
+    · right; omega
+  obtain ⟨_, h2, h3⟩ := h
+  split at h3
+  · omega
+  · split at h3 <;> omega
+
+/-- **`ready_master_becomes_ns`**: a status reply (status Ok) from the polled address reporting
+`MasterWithoutToken` ("ready to enter the ring") — or `MasterInRing`, which the code treats alike —
+makes that address the next station: `do_await_status_response` stores `set_next_station(addr)`,
+whose NS is `addr` whatever the LAS contained, and goes to `PassToken` with `do_gap = No`. -/
+theorem ready_master_becomes_ns (c : Ctx) (now : Int) (addr : Nat) (rx' : Bytes) (t : Telegram) (l ret : Bool)
+    (rest : List (Telegram × Bool)) (state : ResponseState)
+    (hst : c.s.st = .awaitStatus addr) (hne : addr ≠ c.s.p.address) (hg : c.s.gap = .doPoll addr)
+    (hrx : receiveTelegram c.rx = .done rx' ((t, l) :: rest) ret)
+    (hr : replyOf c.s.p.address addr t = some (state, .ok))
+    (hstate : state = .masterWithoutToken ∨ state = .masterInRing)
+    (ha : addr < 128) (hts : c.s.ring.ts = c.s.p.address) (hts' : c.s.p.address < 128) :
+    ∃ r, c.s.ring.setNextStation addr = some r ∧ r.ns = addr ∧ r.ts = c.s.ring.ts ∧ r.las = c.s.ring.las ∧
+      r.isActive addr = true ∧
+      doAwaitStatusResponse c now =
+        .ok { c with rx := rx', s := { (markRx c.s now) with ring := r, st := .passToken false .first } } := by
+  have hadm : Admits state .ok := ⟨rfl, hstate⟩
+  have hstep := await_status_reply c now addr rx' t l ret rest state .ok hst hne hg hrx hr
+  rw [if_pos hadm] at hstep
+  cases hsn : c.s.ring.setNextStation addr with
+  | none =>
+    exfalso
+    unfold TokenRing.setNextStation at hsn
+    rw [if_neg (by omega)] at hsn
+    cases hsn
+  | some r =>
+    have hns := TokenRing.setNextStation_spec c.s.ring r addr (by rw [hts]; exact hne) (by rw [hts]; exact hts') hsn
+    rw [hsn] at hstep
+    exact ⟨r, rfl, hns.1, hns.2.1, hns.2.2.1, hns.2.2.2, hstep⟩
+
+/-- … and the token then goes to it: in `PassToken` with `do_gap = No` the next poll after the
+synchronisation pause transmits the token telegram to NS (`pass_token_without_gap`), i.e. to the
+station just admitted. -/
+theorem ready_master_gets_token (c : Ctx) (now : Int) (att : Attempt) (addr : Nat)
+    (hst : c.s.st = .passToken false att) (htx : c.tx = none) (hw : SyncOver c.s now)
+    (hns : c.s.ring.ns = addr) (c' : Ctx) (h : doPassToken c now = .ok c') :
+    c'.tx = some (tokenBytes addr c.s.p.address) ∧ c'.s.gap = c.s.gap := by
+  rw [pass_token_without_gap c now att hst htx hw] at h
+  cases h
+  exact ⟨by simp only [hns], rfl⟩
+
+/-- Every other reply from the polled address — `Slave`, `MasterNotReady`, or a status other than
+Ok — leaves the ring view (hence NS) untouched; the token goes to the old NS. -/
+theorem other_reply_keeps_ns (c : Ctx) (now : Int) (addr : Nat) (rx' : Bytes) (t : Telegram) (l ret : Bool)
+    (rest : List (Telegram × Bool)) (state : ResponseState) (status : ResponseStatus)
+    (hst : c.s.st = .awaitStatus addr) (hne : addr ≠ c.s.p.address) (hg : c.s.gap = .doPoll addr)
+    (hrx : receiveTelegram c.rx = .done rx' ((t, l) :: rest) ret)
+    (hr : replyOf c.s.p.address addr t = some (state, status))
+    (hno : status ≠ .ok ∨ state = .slave ∨ state = .masterNotReady) :
+    doAwaitStatusResponse c now =
+      .ok { c with rx := rx', s := { (markRx c.s now) with st := .passToken false .first } } := by
+  have hna : ¬ Admits state status := by
+    unfold Admits
+    rcases hno with h | h | h
+    · exact fun hh => h hh.1
+    · subst h; simp
+    · subst h; simp
+  rw [await_status_reply c now addr rx' t l ret rest state status hst hne hg hrx hr, if_neg hna]
+
+/-- The same in the post-claim scan: the admitted station becomes NS, the scan goes on with the
+same cursor — and by `sweep_ends_at_new_successor` its next step ends the sweep. -/
+theorem ready_master_becomes_ns_claim (c : Ctx) (now : Int) (fuel addr : Nat) (rx' : Bytes) (t : Telegram) (l ret : Bool)
+    (rest : List (Telegram × Bool)) (state : ResponseState)
+    (hst : c.s.st = .claimToken (.scanAwait addr)) (hne : addr ≠ c.s.p.address) (hg : c.s.gap = .doPoll addr)
+    (hrx : receiveTelegram c.rx = .done rx' ((t, l) :: rest) ret)
+    (hr : replyOf c.s.p.address addr t = some (state, .ok))
+    (hstate : state = .masterWithoutToken ∨ state = .masterInRing)
+    (ha : addr < 128) (hts : c.s.ring.ts = c.s.p.address) (hts' : c.s.p.address < 128) :
+    ∃ r, c.s.ring.setNextStation addr = some r ∧ r.ns = addr ∧ r.ts = c.s.ring.ts ∧ r.las = c.s.ring.las ∧
+      r.isActive addr = true ∧
+      doClaimToken c now (fuel + 1) =
+        .ok { c with rx := rx', s := { (markRx c.s now) with ring := r, st := .claimToken .scan } } := by
+  have hadm : Admits state .ok := ⟨rfl, hstate⟩
+  have hstep := claim_await_reply c now fuel addr rx' t l ret rest state .ok hst hne hg hrx hr
+  rw [if_pos hadm] at hstep
+  cases hsn : c.s.ring.setNextStation addr with
+  | none =>
+    exfalso
+    unfold TokenRing.setNextStation at hsn
+    rw [if_neg (by omega)] at hsn
+    cases hsn
+  | some r =>
+    have hns := TokenRing.setNextStation_spec c.s.ring r addr (by rw [hts]; exact hne) (by rw [hts]; exact hts') hsn
+    rw [hsn] at hstep
+    exact ⟨r, rfl, hns.1, hns.2.1, hns.2.2.1, hns.2.2.2, hstep⟩
+
+/-- After an admitting reply in the post-claim scan, the next scan step (NS = cursor = `addr`) ends
+the sweep without a further request; the step after it moves to `PassToken` (`claim_scan_step`,
+case `Waiting`), from where `ready_master_gets_token` applies. -/
+theorem claim_scan_after_admission (c : Ctx) (now : Int) (fuel addr : Nat)
+    (hst : c.s.st = .claimToken .scan) (htx : c.tx = none) (hw : SyncOver c.s now)
+    (hg : c.s.gap = .doPoll addr) (hns : c.s.ring.ns = addr) (hne : addr ≠ c.s.p.address)
+    (hts : c.s.p.address < c.s.p.hsa) (hh : c.s.p.hsa ≤ 126) (ha : addr < c.s.p.hsa) :
+    doClaimToken c now (fuel + 1) = .ok { c with s := { (stamped c.s now) with gap := .waiting 0 } } := by
+  rw [claim_scan_step c now fuel hst htx hw, hg]
+  simp only
+  have : nextGap c.s addr = some (.waiting 0) := by
+    unfold nextGap
+    rw [hns, sweep_ends_at_new_successor c.s.p.address c.s.p.hsa addr hts hh ha hne]
+  rw [this]
+
+/-! ## 4. Truthful status replies -/
+
+/-! ### Which requests are taken up -/
+
+/-- `ListenToken`: an FDL status request addressed to us (from another address) is taken up iff it
+is the last telegram of its batch; its source address is remembered. -/
+theorem listen_records_request (c : Ctx) (l : Bool) (sr : Option Nat) (coll : Nat) (h : Header) (pdu : Bytes)
+    (fcb : FrameCountBit) (hon : c.s.online = true) (hst : c.s.st = .listenToken sr coll)
+    (hfc : h.fc = .request fcb .fdlStatus) (hda : h.da.toNat = c.s.p.address) (hsa : h.sa.toNat ≠ c.s.p.address) :
+    listenTelegramCore c (.data h pdu) l =
+      if l then .ok (upd c fun s => { s with st := .listenToken (some h.sa.toNat) coll }) else .ok c := by
+  unfold listenTelegramCore
+  simp only [hon, Bool.not_true, Bool.false_eq_true, if_false, hst, Telegram.sourceAddress, Option.map_some,
+    Option.some.injEq, hsa, hfc, hda, true_and]
+
+/-- … and nothing else changes the remembered requester: only a status request with DA = own address,
+flagged as last telegram of the batch. -/
+theorem listen_request_only_if (c c' : Ctx) (t : Telegram) (l : Bool) (sr sr' : Option Nat) (coll coll' : Nat)
+    (hst : c.s.st = .listenToken sr coll) (h : listenTelegramCore c t l = .ok c')
+    (hst' : c'.s.st = .listenToken sr' coll') (hne : sr' ≠ sr) :
+    ∃ hd pdu fcb, t = .data hd pdu ∧ hd.fc = .request fcb .fdlStatus ∧ hd.da.toNat = c.s.p.address ∧
+      l = true ∧ sr' = some hd.sa.toNat ∧ hd.sa.toNat ≠ c.s.p.address := by
+  unfold listenTelegramCore at h
+  split at h
+  · cases h; rw [hst] at hst'; cases hst'; exact absurd rfl hne
+  · rw [hst] at h
+    simp only at h
+    split at h
+    · split at h
+      · cases h; simp [upd] at hst'; exact absurd hst'.1.symm hne
+      · have h' := Res.ok.inj h
+        rw [← h'] at hst'
+        simp [upd, Station.setOffline, Station.new] at hst'
+    · rename_i hsrc
+      cases t with
+      | sc => cases h; rw [hst] at hst'; cases hst'; exact absurd rfl hne
+      | token da sa => cases h; simp [upd, hst] at hst'; exact absurd hst'.1.symm hne
+      | data hd pdu =>
+        simp only at h
+        split at h
+        · rename_i fcb hfc
+          split at h
+          · rename_i hcond
+            cases h
+            simp [upd] at hst'
+            refine ⟨hd, pdu, fcb, rfl, hfc, hcond.1, hcond.2, hst'.1.symm, ?_⟩
+            intro hh
+            apply hsrc
+            simp [Telegram.sourceAddress, hh]
+          · cases h; rw [hst] at hst'; cases hst'; exact absurd rfl hne
+        · cases h; rw [hst] at hst'; cases hst'; exact absurd rfl hne
+
+/-- `ActiveIdle` (`handle_telegram`): a status request with DA = own address that is the last
+telegram of its batch is taken up (here the source address is not compared with the own address). -/
+theorem active_idle_records_request (c : Ctx) (now : Int) (l : Bool) (sr np : Option Nat) (coll : Nat)
+    (h : Header) (pdu : Bytes) (fcb : FrameCountBit) (hst : c.s.st = .activeIdle sr np coll)
+    (hfc : h.fc = .request fcb .fdlStatus) (hda : h.da.toNat = c.s.p.address) :
+    handleTelegram c now (.data h pdu) l =
+      if l then .ok (upd c fun s => { s with st := .activeIdle (some h.sa.toNat) np coll }) else .ok c := by
+  unfold handleTelegram
+  simp only [hst, hfc, hda, true_and]
+
+theorem active_idle_request_only_if (c c' : Ctx) (now : Int) (t : Telegram) (l : Bool) (sr sr' np np' : Option Nat)
+    (coll coll' : Nat) (hst : c.s.st = .activeIdle sr np coll) (h : handleTelegram c now t l = .ok c')
+    (hst' : c'.s.st = .activeIdle sr' np' coll') (hne : sr' ≠ sr) :
+    ∃ hd pdu fcb, t = .data hd pdu ∧ hd.fc = .request fcb .fdlStatus ∧ hd.da.toNat = c.s.p.address ∧
+      l = true ∧ sr' = some hd.sa.toNat := by
+  unfold handleTelegram at h
+  rw [hst] at h
+  simp only at h
+  cases t with
+  | sc => cases h; rw [hst] at hst'; cases hst'; exact absurd rfl hne
+  | token da sa =>
+    simp only at h
+    split at h
+    · split at h
+      · cases h; simp [upd] at hst'; exact absurd hst'.1.symm hne
+      · simp only [tr, toListenToken, upd] at h; cases h; simp at hst'
+    · split at h
+      · cases h; simp [upd] at hst'; exact absurd hst'.1.symm hne
+      · split at h
+        · simp only [tr, toUseToken, upd] at h; cases h; simp at hst'
+        · split at h
+          · simp only [tr, toUseToken, upd] at h; cases h; simp at hst'
+          · cases h; simp [upd] at hst'; exact absurd hst'.1.symm hne
+  | data hd pdu =>
+    simp only at h
+    split at h
+    · rename_i fcb hfc
+      split at h
+      · rename_i hcond
+        cases h
+        simp [upd] at hst'
+        exact ⟨hd, pdu, fcb, rfl, hfc, hcond.1, hcond.2, hst'.1.symm⟩
+      · cases h; rw [hst] at hst'; cases hst'; exact absurd rfl hne
+    · cases h; rw [hst] at hst'; cases hst'; exact absurd rfl hne
+
+/-! ### What is answered, and when -/
+
+/-- `ListenToken` with a pending request: nothing is sent before the bus has been idle for the
+synchronisation pause (33 bit times since the last bus activity; `min_tsdr_bits` is not consulted by
+the code). -/
+theorem listen_reply_waits (c : Ctx) (now : Int) (src coll : Nat) (hst : c.s.st = .listenToken (some src) coll)
+    (hl : ¬ TokenLost c.s now) (hw : ¬ SyncOver c.s now) :
+    doListenToken c now = .ok { c with s := stamped c.s now } := by
+  have hw' : (waitSyncPause (stamped c.s now) now).2 = true := by
+    have : ¬ SyncOver (stamped c.s now) now := fun h => hw ((syncOver_stamped c.s now).mp h)
+    simpa [SyncOver] using this
+  unfold doListenToken
+  rw [hst]
+  simp only [handleLostToken_none c now hl, stamped_st, hst, hw', if_true, sync_stamped, stamped_stamped]
+
+/-- **`status_reply_truthful` (ListenToken)**: at the first poll after the pause the station sends ONE
+status response to the requester, with its own address as SA, reporting
+`MasterWithoutToken` ("ready") iff the LAS is valid and the requester is the registered predecessor,
+otherwise `MasterNotReady`.  If the LAS is valid it considers itself in the ring from now on
+(`ActiveIdle`) — whoever asked —, otherwise it keeps listening; the request is consumed. -/
+theorem listen_reply (c : Ctx) (now : Int) (src coll : Nat) (hst : c.s.st = .listenToken (some src) coll)
+    (htx : c.tx = none) (hl : ¬ TokenLost c.s now) (hw : SyncOver c.s now) :
+    doListenToken c now =
+      .ok { c with
+        tx := some (statusResponseBytes src c.s.p.address (listenReport c.s src)),
+        s := { (markTx (stamped c.s now) now 6) with
+          st := if c.s.ring.readyForRing = true then FState.activeIdle none none 0 else FState.listenToken none coll } } := by
+  have hw' : (waitSyncPause (stamped c.s now) now).2 = false := (syncOver_stamped c.s now).mpr hw
+  unfold doListenToken
+  rw [hst]
+  simp only [handleLostToken_none c now hl, stamped_st, hst, hw', Bool.false_eq_true, if_false, sync_stamped,
+    stamped_stamped, stamped_ring, stamped_p]
+  have hser := statusResponse_serialize src c.s.p.address (listenReport c.s src)
+  unfold listenReport at hser
+  simp only [encodeOrPanic, hser, transmit, htx, Res.bind, statusResponseBytes_length]
+  by_cases hr : c.s.ring.readyForRing = true
+  · simp [hr, tr, toActiveIdle, markTx, hst, listenReport]
+  · simp [hr, upd, markTx, listenReport]
+
+/-- `ActiveIdle` with a pending request: the same pause … -/
+theorem active_idle_reply_waits (c : Ctx) (now : Int) (src : Nat) (np : Option Nat) (coll : Nat)
+    (hst : c.s.st = .activeIdle (some src) np coll) (hl : ¬ TokenLost c.s now) (hw : ¬ SyncOver c.s now) :
+    doActiveIdle c now = .ok { c with s := stamped c.s now } := by
+  have hw' : (waitSyncPause (stamped c.s now) now).2 = true := by
+    have : ¬ SyncOver (stamped c.s now) now := fun h => hw ((syncOver_stamped c.s now).mp h)
+    simpa [SyncOver] using this
+  unfold doActiveIdle
+  rw [hst]
+  simp only [handleLostToken_none c now hl, stamped_st, hst, hw', if_true, sync_stamped, stamped_stamped]
+
+/-- **`status_reply_truthful` (ActiveIdle)**: … then ONE status response to the requester reporting
+`MasterInRing`; the request is consumed, everything else stays. -/
+theorem active_idle_reply (c : Ctx) (now : Int) (src : Nat) (np : Option Nat) (coll : Nat)
+    (hst : c.s.st = .activeIdle (some src) np coll) (htx : c.tx = none) (hl : ¬ TokenLost c.s now)
+    (hw : SyncOver c.s now) :
+    doActiveIdle c now =
+      .ok { c with
+        tx := some (statusResponseBytes src c.s.p.address .masterInRing),
+        s := { (markTx (stamped c.s now) now 6) with st := .activeIdle none np coll } } := by
+  have hw' : (waitSyncPause (stamped c.s now) now).2 = false := (syncOver_stamped c.s now).mpr hw
+  unfold doActiveIdle
+  rw [hst]
+  simp only [handleLostToken_none c now hl, stamped_st, hst, hw', Bool.false_eq_true, if_false, sync_stamped,
+    stamped_stamped, stamped_p]
+  have hser := statusResponse_serialize src c.s.p.address .masterInRing
+  simp only [encodeOrPanic, hser, transmit, htx, Res.bind, statusResponseBytes_length]
+  simp [upd, markTx]
+
+/-- **Status responses are sent only as answers**: whatever a listening station receives, the only
+telegrams `do_listen_token` ever transmits are (i) the status response to the remembered requester,
+with the truthful state, after the pause, or (ii) — after the token-lost time-out — the token
+telegram TS → TS that claims the token.  In particular without a remembered request no status
+response is sent. -/
+theorem listen_transmits_only_reply (c c' : Ctx) (now : Int) (sr : Option Nat) (coll : Nat) (bytes : Bytes)
+    (hst : c.s.st = .listenToken sr coll) (htx : c.tx = none)
+    (h : doListenToken c now = .ok c') (hb : c'.tx = some bytes) :
+    (TokenLost c.s now ∧ bytes = tokenBytes c.s.p.address c.s.p.address) ∨
+    (¬ TokenLost c.s now ∧ SyncOver c.s now ∧
+      ∃ src, sr = some src ∧ bytes = statusResponseBytes src c.s.p.address (listenReport c.s src)) := by
+  by_cases hl : TokenLost c.s now
+  · left
+    refine ⟨hl, ?_⟩
+    unfold doListenToken at h
+    rw [hst] at h
+    simp only [handleLostToken_lost c now hl, toClaimToken, stamped_st, hst] at h
+    obtain ⟨c1, hc1⟩ : ∃ c1 : Ctx, c1 = { c with s := { (stamped c.s now) with st := .claimToken .firstToken } } := ⟨_, rfl⟩
+    rw [← hc1] at h
+    have h1 : c1.s.st = .claimToken .firstToken := by rw [hc1]
+    have h2 : c1.tx = none := by rw [hc1]; exact htx
+    by_cases hw : SyncOver c1.s now
+    · rw [claim_token_step c1 now 1 .firstToken (Or.inl rfl) h1 h2 hw] at h
+      cases h
+      simp only [Option.some.injEq] at hb
+      have h3 : c1.s.p = c.s.p := by rw [hc1]; rfl
+      rw [← hb, h3]
+    · rw [claim_token_step_waits c1 now 1 .firstToken (Or.inl rfl) h1 hw] at h
+      cases h
+      rw [h2] at hb
+      cases hb
+  · right
+    refine ⟨hl, ?_⟩
+    cases sr with
+    | some src =>
+      by_cases hw : SyncOver c.s now
+      · rw [listen_reply c now src coll hst htx hl hw] at h
+        cases h
+        simp only [Option.some.injEq] at hb
+        exact ⟨hw, src, rfl, hb.symm⟩
+      · rw [listen_reply_waits c now src coll hst hl hw] at h
+        cases h
+        rw [htx] at hb
+        cases hb
+    | none =>
+      exfalso
+      unfold doListenToken at h
+      rw [hst] at h
+      simp only [handleLostToken_none c now hl, stamped_st, hst] at h
+      split at h
+      · cases h
+      · cases h
+      · have := foldTelegrams_tx (listenTelegram now) (listenTelegram_tx now) _ _ _ h
+        rw [this, htx] at hb
+        cases hb
+
+/-- The same for a station in the ring (`ActiveIdle`): only the `MasterInRing` response to the
+remembered requester, or the claiming token after the token-lost time-out. -/
+theorem active_idle_transmits_only_reply (c c' : Ctx) (now : Int) (sr np : Option Nat) (coll : Nat) (bytes : Bytes)
+    (hst : c.s.st = .activeIdle sr np coll) (htx : c.tx = none)
+    (h : doActiveIdle c now = .ok c') (hb : c'.tx = some bytes) :
+    (TokenLost c.s now ∧ bytes = tokenBytes c.s.p.address c.s.p.address) ∨
+    (¬ TokenLost c.s now ∧ SyncOver c.s now ∧
+      ∃ src, sr = some src ∧ bytes = statusResponseBytes src c.s.p.address .masterInRing) := by
+  by_cases hl : TokenLost c.s now
+  · left
+    refine ⟨hl, ?_⟩
+    unfold doActiveIdle at h
+    rw [hst] at h
+    simp only [handleLostToken_lost c now hl, toClaimToken, stamped_st, hst] at h
+    obtain ⟨c1, hc1⟩ : ∃ c1 : Ctx, c1 = { c with s := { (stamped c.s now) with st := .claimToken .firstToken } } := ⟨_, rfl⟩
+    rw [← hc1] at h
+    have h1 : c1.s.st = .claimToken .firstToken := by rw [hc1]
+    have h2 : c1.tx = none := by rw [hc1]; exact htx
+    by_cases hw : SyncOver c1.s now
+    · rw [claim_token_step c1 now 1 .firstToken (Or.inl rfl) h1 h2 hw] at h
+      cases h
+      simp only [Option.some.injEq] at hb
+      have h3 : c1.s.p = c.s.p := by rw [hc1]; rfl
+      rw [← hb, h3]
+    · rw [claim_token_step_waits c1 now 1 .firstToken (Or.inl rfl) h1 hw] at h
+      cases h
+      rw [h2] at hb
+      cases hb
+  · right
+    refine ⟨hl, ?_⟩
+    cases sr with
+    | some src =>
+      by_cases hw : SyncOver c.s now
+      · rw [active_idle_reply c now src np coll hst htx hl hw] at h
+        cases h
+        simp only [Option.some.injEq] at hb
+        exact ⟨hw, src, rfl, hb.symm⟩
+      · rw [active_idle_reply_waits c now src np coll hst hl hw] at h
+        cases h
+        rw [htx] at hb
+        cases hb
+    | none =>
+      exfalso
+      unfold doActiveIdle at h
+      rw [hst] at h
+      simp only [handleLostToken_none c now hl, stamped_st, hst] at h
+      split at h
+      · cases h
+      · cases h
+      · have := foldTelegrams_tx _ (fun c c' t l hh => by
+            have := handleTelegram_tx _ c' now t l hh
+            simpa [upd] using this) _ _ _ h
+        rw [this, htx] at hb
+        cases hb
+
+/-! ## Non-vacuity of the station-level theorems: a concrete station 7 (HSA 126, NS 20, PS 3) -/
+
+def demoP : Params :=
+  { address := 7, rate := 500000, slotBits := 200, ttrBits := 20000, gapWait := 10, hsa := 126,
+    maxRetry := 1, minTsdrBits := 11 }
+
+/-- Station 7 in FDL state `st` with GAP state `gap`, last bus activity at t = 0, receive buffer `rx`. -/
+def demo (st : FState) (gap : GapState) (rx : Bytes) (las : LasState := .valid) : Ctx :=
+  { s := { (Station.new demoP) with
+            online := true, st := st, gap := gap, lastBusActivity := some 0,
+            ring := { active := Vector.ofFn fun i => decide (i.val = 3 ∨ i.val = 7 ∨ i.val = 20),
+                      ts := 7, ps := 3, ns := 20, las := las } },
+    apps := [], rx := rx }
+
+/-- Observable summary of a step result. -/
+def obs : Res → Option (FState × GapState × Option Bytes × Nat)
+  | .ok c => some (c.s.st, c.s.gap, c.tx, c.s.ring.ns)
+  | .panic _ => none
+
+-- 1. end of a visit, sweep running at 8: one request to 9, then AwaitStatusResponse 9
+example : SyncOver (demo (.passToken true .first) (.doPoll 8) []).s 1000 := by decide
+example : obs (doPassToken (demo (.passToken true .first) (.doPoll 8) []) 1000) =
+    some (.awaitStatus 9, .doPoll 9, some (statusRequestBytes 9 7), 20) := by decide
+-- a whole visit from the token receipt (no application): the token hold ends at t=1000 with the request to 9
+example : gapPolls (demo (.useToken ⟨900, none⟩ false) (.doPoll 8) []).s []
+    [(1000, false, []), (1500, false, []), (3000, false, []), (5000, false, [])] = some 1 := by decide
+example : obs ((demo (.useToken ⟨900, none⟩ false) (.doPoll 8) []).s.poll [] 1000 false []) =
+    some (.awaitStatus 9, .doPoll 9, some (statusRequestBytes 9 7), 20) := by decide
+-- a whole visit tail: request at t=1000, still waiting at 1500, time-out and token pass at 3000: one request
+example : gapPolls (demo (.passToken true .first) (.doPoll 8) []).s []
+    [(1000, false, []), (1500, false, []), (3000, false, []), (5000, false, [])] = some 1 := by decide
+example : gapPolls (demo (.passToken true .first) (.waiting 3) []).s []
+    [(1000, false, []), (1500, false, []), (3000, false, [])] = some 0 := by decide
+-- time-out: the token goes to 20 in the same poll, no further request
+example : SlotExpired (demo (.awaitStatus 9) (.doPoll 9) []).s 1000 := by decide
+example : obs (doAwaitStatusResponse (demo (.awaitStatus 9) (.doPoll 9) []) 1000) =
+    some (.checkTokenPass .first, .doPoll 9, some (tokenBytes 20 7), 20) := by decide
+-- post-claim scan: request to 9, and on its time-out at once the request to 10
+example : obs (doClaimToken (demo (.claimToken .scan) (.doPoll 8) []) 1000 2) =
+    some (.claimToken (.scanAwait 9), .doPoll 9, some (statusRequestBytes 9 7), 20) := by decide
+example : obs (doClaimToken (demo (.claimToken (.scanAwait 9)) (.doPoll 9) []) 1000 2) =
+    some (.claimToken (.scanAwait 10), .doPoll 10, some (statusRequestBytes 10 7), 20) := by decide
+-- the whole rest of the sweep (cursor 17, NS 20) over five silent polls: requests to 18 and 19, then PassToken
+example : (claimRun (demo (.claimToken .scan) (.doPoll 17) []).s []
+      [(1000, false, []), (2000, false, []), (3000, false, []), (4000, false, []), (5000, false, [])]).map
+      (fun r => (r.1, r.2.st)) =
+    some ([statusRequestBytes 18 7, statusRequestBytes 19 7], .passToken false .first) := by decide
+example : Silent [] := ⟨[], false, by decide⟩
+example : ScanOk (demo (.claimToken .scan) (.doPoll 17) []).s :=
+  ⟨by decide, by decide, fun cur h => by simp [demo] at h; subst h; decide, fun a h => by simp [demo] at h⟩
+-- … until the address before NS was polled: the sweep is over, then the token is passed
+example : obs (doClaimToken (demo (.claimToken (.scanAwait 19)) (.doPoll 19) []) 1000 2) =
+    some (.claimToken .scan, .waiting 0, none, 20) := by decide
+example : obs (doClaimToken (demo (.claimToken .scan) (.waiting 0) []) 1000 2) =
+    some (.passToken false .first, .waiting 0, none, 20) := by decide
+-- 2. the pause: with gap_wait_rotations = 10 the visits 1..11 after the end of a sweep only count,
+-- the 12th polls 8 (= TS+1) again; every GAP address 8..19 is polled by visit 23
+example : (List.range 14).map (gapAfter (demo (.passToken true .first) (.waiting 0) []).s) =
+    [some (.waiting 0), some (.waiting 1), some (.waiting 2), some (.waiting 3), some (.waiting 4),
+     some (.waiting 5), some (.waiting 6), some (.waiting 7), some (.waiting 8), some (.waiting 9),
+     some (.waiting 10), some (.waiting 11), some (.doPoll 8), some (.doPoll 9)] := by decide
+example : InGap 7 20 126 19 := by decide
+example : gapAfter (demo (.passToken true .first) (.waiting 0) []).s 23 = some (.doPoll 19) := by decide
+example : gapAfter (demo (.passToken true .first) (.waiting 0) []).s 24 = some (.waiting 0) := by decide
+-- 3. station 9 answers "ready" (MasterWithoutToken): NS becomes 9, PassToken without GAP, token to 9
+example : obs (doAwaitStatusResponse (demo (.awaitStatus 9) (.doPoll 9) (statusResponseBytes 7 9 .masterWithoutToken)) 1000) =
+    some (.passToken false .first, .doPoll 9, none, 9) := by decide
+example : obs (doAwaitStatusResponse (demo (.awaitStatus 9) (.doPoll 9) (statusResponseBytes 7 9 .masterInRing)) 1000) =
+    some (.passToken false .first, .doPoll 9, none, 9) := by decide
+-- "not ready" / slave: NS stays 20
+example : obs (doAwaitStatusResponse (demo (.awaitStatus 9) (.doPoll 9) (statusResponseBytes 7 9 .masterNotReady)) 1000) =
+    some (.passToken false .first, .doPoll 9, none, 20) := by decide
+example : obs (doAwaitStatusResponse (demo (.awaitStatus 9) (.doPoll 9) (statusResponseBytes 7 9 .slave)) 1000) =
+    some (.passToken false .first, .doPoll 9, none, 20) := by decide
+example : replyOf 7 9 (.data (fdlStatusResponseHeader 7 9 .masterWithoutToken .ok) []) = some (.masterWithoutToken, .ok) := by decide
+-- 4. a listening station 7 (LAS valid, PS = 3): "ready" to its predecessor 3, "not ready" to 5 — but in
+-- both cases it moves to ActiveIdle; with the LAS not yet valid "not ready" and it keeps listening;
+-- in the ring it answers "in ring"
+example : ¬ TokenLost (demo (.listenToken (some 3) 0) (.doPoll 7) []).s 1000 := by decide
+example : obs (doListenToken (demo (.listenToken (some 3) 0) (.doPoll 7) []) 1000) =
+    some (.activeIdle none none 0, .doPoll 7, some (statusResponseBytes 3 7 .masterWithoutToken), 20) := by decide
+example : obs (doListenToken (demo (.listenToken (some 5) 0) (.doPoll 7) []) 1000) =
+    some (.activeIdle none none 0, .doPoll 7, some (statusResponseBytes 5 7 .masterNotReady), 20) := by decide
+example : obs (doListenToken (demo (.listenToken (some 3) 0) (.doPoll 7) [] .verification) 1000) =
+    some (.listenToken none 0, .doPoll 7, some (statusResponseBytes 3 7 .masterNotReady), 20) := by decide
+example : obs (doActiveIdle (demo (.activeIdle (some 5) none 0) (.doPoll 7) []) 1000) =
+    some (.activeIdle none none 0, .doPoll 7, some (statusResponseBytes 5 7 .masterInRing), 20) := by decide
+-- a request 3 → 7 is taken up only as the last telegram of its batch
+example : obs (listenTelegramCore (demo (.listenToken none 0) (.doPoll 7) []) (.data (fdlStatusRequestHeader 7 3) []) true) =
+    some (.listenToken (some 3) 0, .doPoll 7, none, 20) := by decide
+example : obs (listenTelegramCore (demo (.listenToken none 0) (.doPoll 7) []) (.data (fdlStatusRequestHeader 7 3) []) false) =
+    some (.listenToken none 0, .doPoll 7, none, 20) := by decide
+example : obs (listenTelegramCore (demo (.listenToken none 0) (.doPoll 7) []) (.data (fdlStatusRequestHeader 8 3) []) true) =
+    some (.listenToken none 0, .doPoll 7, none, 20) := by decide
 
 end PV.C12
